@@ -121,7 +121,7 @@ def route(file):
 ALL_LIB = ["C01", "C02", "C03", "C04", "C05", "C06", "C07", "C08", "C09", "C11", "C12", "C13", "C14", "C16"]
 
 
-def phase2(surv, out, workers, name="phase2", router=None):
+def phase2(surv, out, workers, name="phase2", router=None, full=False):
     router = router or route
     done = {}
     path = os.path.join(out, name + ".jsonl")
@@ -149,7 +149,9 @@ def phase2(surv, out, workers, name="phase2", router=None):
                 verdict, by, tail = "undetected", "", ""
                 for cid in router(m["file"]):
                     env = dict(ENV, VERIF_REPO=wt.dir, VERIF_GOFLAGS="-modfile=" + wt.mod, VERIF_BIN=os.path.join(wt.dir, ".verif-bin"),
-                               VERIF_EVIDENCE_SUFFIX=".msw", VERIF_RUNS=str(RUNS[cid]), VERIF_WORKERS=str(per), VERIF_C14_SKIP_RACE="1")
+                               VERIF_EVIDENCE_SUFFIX=".msw", VERIF_WORKERS=str(per), VERIF_C14_SKIP_RACE="1")
+                    if not full:
+                        env["VERIF_RUNS"] = str(RUNS[cid])
                     rc, o = sh([os.path.join(V, "check"), cid, "quick"], cwd=V, env=env, timeout=1500)
                     last = [l for l in o.splitlines() if l.strip()][-3:]
                     if rc == 1:
@@ -228,7 +230,7 @@ def main():
             pool = ["C10", "C15"] if re.search(r"^cmd/gxz/|^internal/(gflag|term)/", f) else ALL_LIB
             return [c for c in pool if c not in first]
         print(f"phase 3 on {len(und)} undetected survivors", flush=True)
-        p3 = phase2([{k: v[k] for k in ("file", "start", "end", "repl", "desc", "line", "func", "key")} for v in und], a.out, max(1, a.workers // 2), "phase3", rest)
+        p3 = phase2([{k: v[k] for k in ("file", "start", "end", "repl", "desc", "line", "func", "key")} for v in und], a.out, max(1, a.workers // 2), "phase3", lambda f: route(f) + rest(f), True)
         for v in und:
             w = p3.get(v["key"])
             if w and w["verdict"] != "undetected":
